@@ -108,13 +108,13 @@ theorem Ab.le_inStep (a : Ab) : a.le a.inStep = true := by
   rw [Ab.le_iff]; simp [Ab.inStep]
 
 section
-variable {env : Env κ} {inpS inpW : Bytes} {δ : Nat} {K : Nat → κ → κ → Prop} {Loc : κ → Nat → Prop}
+variable {env : Env κ} {inpS inpW : Bytes} {δ : Nat} {K : Nat → κ → κ → Prop} {Loc : κ → Nat → Nat → TextType → Prop}
 
 theorem tailRun_lock (F : Frame inpS inpW δ) (hops : OpsSim env.ops inpS inpW δ K Loc) (hcl : Closed inpS inpW δ)
     {fs : FlagMap} {st : StateId} {sd : StateDef} {d : Nat} {ms mw : M κ} (cx : StepCtx env.tbl fs st sd ms.c) (b : Body)
     (hok : bodyOk env.tbl fs st (fs st).2.inStep false b = true)
     (hrel : MRel δ d 0 (fs st).2.inStep .none ms mw) (hK : K d ms.x.sink mw.x.sink)
-    (hloc : 0 < d → Loc ms.x.sink (lexStart ms.r))
+    (hloc : 0 < d → Loc ms.x.sink ms.x.prevConsumed (lexStart ms.r) ms.c.lastTextType)
     (hd : d = 0 ∨ ∃ s, b = .seq s ∧ StartsWithText s.calls) (hlast : ms.c.isLast = true) :
     LockOut env.tbl fs inpW δ K Loc true (tailRun env inpS b ms) (tailRun env inpW b mw) := by
   have hb := runBody_sim F hops fs st false b hok hrel hK hloc hd (fun s _ cl _ _ => Or.inr hcl)
@@ -194,12 +194,12 @@ theorem tailRun_eoc_eq (env : Env κ) (inp : Bytes) (m : M κ) :
   cases h : (act env .emitText inp m).2 <;> simp [h]
 
 section
-variable {env : Env κ} {inpS inpW : Bytes} {δ : Nat} {K : Nat → κ → κ → Prop} {Loc : κ → Nat → Prop}
+variable {env : Env κ} {inpS inpW : Bytes} {δ : Nat} {K : Nat → κ → κ → Prop} {Loc : κ → Nat → Nat → TextType → Prop}
 
 /-- the machines stay where they are, the debt is carried on -/
 theorem lock_stay {fs : FlagMap} {st : StateId} {sd : StateDef} {d : Nat} {eoi : Bool} {ms mw : M κ}
     (cx : StepCtx env.tbl fs st sd ms.c) (hrel : MRel δ d 0 (fs st).2.inStep .none ms mw) (hK : K d ms.x.sink mw.x.sink)
-    (hloc : 0 < d → Loc ms.x.sink (lexStart ms.r))
+    (hloc : 0 < d → Loc ms.x.sink ms.x.prevConsumed (lexStart ms.r) ms.c.lastTextType)
     (hdebt : 0 < d → hasEoc sd = true) :
     LockOut env.tbl fs inpW δ K Loc eoi (ms, none) (mw, none) := by
   right
@@ -216,7 +216,7 @@ theorem eoc_lock (F : Frame inpS inpW δ) (hops : OpsSim env.ops inpS inpW δ K 
     {fs : FlagMap} {st : StateId} {sd : StateDef} {d : Nat} {ms mw : M κ} (cx : StepCtx env.tbl fs st sd ms.c)
     (heocs : hasEoc sd = true)
     (hrel : MRel δ d 0 (fs st).2.inStep .none ms mw) (hK : K d ms.x.sink mw.x.sink)
-    (hloc : 0 < d → Loc ms.x.sink (lexStart ms.r)) :
+    (hloc : 0 < d → Loc ms.x.sink ms.x.prevConsumed (lexStart ms.r) ms.c.lastTextType) :
     LockOut env.tbl fs inpW δ K Loc true (tailRun env inpS eocBody ms) (tailRun env inpW eocBody mw) := by
   rw [tailRun_eoc_eq, tailRun_eoc_eq]
   have hnone : (fs st).2 = Ab.none := (cx.ok.debt heocs).2.1
@@ -253,7 +253,7 @@ theorem armRun_lock (F : Frame inpS inpW δ) (hops : OpsSim env.ops inpS inpW δ
     {fs : FlagMap} {st : StateId} {sd : StateDef} {d : Nat} {eoi : Bool} {ms mw : M κ} (cx : StepCtx env.tbl fs st sd ms.c)
     (ch : Option UInt8) (arm : Arm) (harm : arm ∈ sd.arms) (hmatch : patMatches env.tbl ms.c ch arm.pat = true)
     (hrel : MRel δ d 0 (fs st).2.inStep .none ms mw) (hK : K d ms.x.sink mw.x.sink)
-    (hloc : 0 < d → Loc ms.x.sink (lexStart ms.r))
+    (hloc : 0 < d → Loc ms.x.sink ms.x.prevConsumed (lexStart ms.r) ms.c.lastTextType)
     (hdebt : 0 < d → hasEoc sd = true)
     (hchin : ch.isSome = true → ms.c.nextPos ≤ inpS.length)
     (hcl : ch = none → Closed inpS inpW δ ∧ eoi = true) :
@@ -330,7 +330,7 @@ theorem armRun_lock (F : Frame inpS inpW δ) (hops : OpsSim env.ops inpS inpW δ
 end
 
 section
-variable {env : Env κ} {inpS inpW : Bytes} {δ : Nat} {K : Nat → κ → κ → Prop} {Loc : κ → Nat → Prop}
+variable {env : Env κ} {inpS inpW : Bytes} {δ : Nat} {K : Nat → κ → κ → Prop} {Loc : κ → Nat → Nat → TextType → Prop}
 
 /-- `emit_text` in the split run only (an `eoc` arm at the end of the split input) -/
 theorem act_emitText_split (hops : OpsSim env.ops inpS inpW δ K Loc) {d : Nat} {ab : Ab} {ms mw : M κ}
@@ -421,14 +421,14 @@ theorem armRun_end (hops : OpsSim env.ops inpS inpW δ K Loc)
 end
 
 section
-variable {env : Env κ} {inpS inpW : Bytes} {δ : Nat} {K : Nat → κ → κ → Prop} {Loc : κ → Nat → Prop}
+variable {env : Env κ} {inpS inpW : Bytes} {δ : Nat} {K : Nat → κ → κ → Prop} {Loc : κ → Nat → Nat → TextType → Prop}
 
 /-- after the sequence arms: the ordinary arm, in lock-step -/
 theorem dispatch_tail_lock (F : Frame inpS inpW δ) (hops : OpsSim env.ops inpS inpW δ K Loc)
     {fs : FlagMap} {st : StateId} {sd : StateDef} {d : Nat} {eoi : Bool} {ms mw ms2 mw2 : M κ} (cx : StepCtx env.tbl fs st sd ms.c)
     (ch : Option UInt8) (hs : runSeqArms env inpS ch sd.arms ms = .inr ms2) (hw : runSeqArms env inpW ch sd.arms mw = .inr mw2)
     (hrel : MRel δ d 0 (fs st).2.inStep .none ms2 mw2) (hcs : ms2.c = ms.c) (hxs : ms2.x = ms.x) (hxw : mw2.x = mw.x)
-    (hK : K d ms.x.sink mw.x.sink) (hloc : 0 < d → Loc ms2.x.sink (lexStart ms2.r)) (hdebt : 0 < d → hasEoc sd = true)
+    (hK : K d ms.x.sink mw.x.sink) (hloc : 0 < d → Loc ms2.x.sink ms2.x.prevConsumed (lexStart ms2.r) ms2.c.lastTextType) (hdebt : 0 < d → hasEoc sd = true)
     (hchin : ch.isSome = true → ms.c.nextPos ≤ inpS.length) (hcl : ch = none → Closed inpS inpW δ ∧ eoi = true) :
     LockOut env.tbl fs inpW δ K Loc eoi (dispatch env inpS ch sd.arms ms) (dispatch env inpW ch sd.arms mw) := by
   rw [dispatch_inr hs, dispatch_inr hw]
@@ -446,7 +446,7 @@ theorem dispatch_lock (F : Frame inpS inpW δ) (hops : OpsSim env.ops inpS inpW 
     {fs : FlagMap} {st : StateId} {sd : StateDef} {d : Nat} {eoi : Bool} {sm : SeqMode} {ms mw mw0 : M κ} {npw0 : Nat}
     (cx : StepCtx env.tbl fs st sd ms.c) (ch : Option UInt8)
     (hrel : MRel δ d 0 (fs st).2.inStep sm ms mw) (hK : K d ms.x.sink mw.x.sink)
-    (hloc : 0 < d → Loc ms.x.sink (lexStart ms.r))
+    (hloc : 0 < d → Loc ms.x.sink ms.x.prevConsumed (lexStart ms.r) ms.c.lastTextType)
     (hsm : sm = .none ∨ (sm = .stale ∧ hasSeq sd = true)) (hdebt : 0 < d → hasEoc sd = true)
     (hchin : ch.isSome = true → ms.c.nextPos ≤ inpS.length) (hil : ms.c.isLast = true → Closed inpS inpW δ)
     (heoi : eoi = false → ms.c.isLast = false)
